@@ -174,6 +174,8 @@ def run(ctx):
     tables(ctx, enc)
     level(ctx)
     consumed(ctx)
+    from .c11 import take_rule
+    take_rule(ctx)
     reset(ctx, enc)
     # block / flush bookkeeping of the writer (shared with C15): a block is emitted iff it holds elements, its
     # count and buffer are reset only after success, every append happens after the pending block was flushed
